@@ -366,3 +366,52 @@ def prefixed_binding_shadows_outer(a: int, b: int, k: int) -> bool:
     r3, ok3 = _run(T4['some_p'], v)
     r4, ok4 = _run(T4['fn_p'], v)
     return r1 == [a + 1, b + 1, k] and r2 == [a, k] and r3 == [True, k] and r4 == [b * 2, k] and ok1 and ok2 and ok3 and ok4
+
+
+# --- added after defects reported during round 4: early-exit consumers (exists / head / quantifiers) over axis steps and filters must leave
+#     the focus where it was: siblings in one expression and repeated evaluations on ONE context object see the same item -----------------
+
+T3.update(parse_all({
+    'sib_array': '[exists(*[1]), local-name()]?*', 'sib_map': 'map{"a": exists(descendant::a), "b": local-name()}?b',
+    'sib_is': 'head(descendant::*) is head(descendant::*)', 'sib_if': '(1, 2, 3) ! (if (position() = 1) then exists(($p, $q, $p)[. gt $k]) else last())',
+    'sib_seq': '(exists(*[2]), local-name(), head(ancestor-or-self::*) is /*, local-name())',
+    'sib_quant': '((some $e in * satisfies local-name($e) = "a"), local-name(), (every $e in descendant::* satisfies $e), local-name())',
+    'rep_head': 'head(descendant::*) ! local-name()', 'rep_exists': '(exists(following-sibling::*), local-name(.))',
+}))
+
+
+@ob(budget=300, bound='4-element tree r(x(z), y), every tag in {a,b}; context item = each of the 4 elements (chosen by the solver); p, q, k unbounded '
+                      'integers: after exists()/head()/some/every over an axis step or a filter the following sibling expressions see the outer '
+                      'focus, and three evaluations of one token on ONE XPathContext give the same result and leave item/axis/position/size',
+    funcs=['elementpath/xpath_context.py:iter_children_or_self/iter_descendants/... (axis iterators)', 'elementpath/xpath_tokens/base.py:select_with_focus'])
+def early_exit_leaves_focus(t0: str, t1: str, t2: str, t3: str, ci: int, p: int, q: int, k: int) -> bool:
+    """
+    pre: all(len(t) == 1 and 'a' <= t <= 'b' for t in (t0, t1, t2, t3)) and 0 <= ci <= 3
+    post: _
+    """
+    n = _tree(t0, t1, t2, t3, False)
+    doc = ET.ElementTree(n[0])
+    tags = [t0, t1, t2, t3]
+    ci = [j for j in range(4) if j == ci][0]
+    item = n[ci]
+    here = tags[ci]
+    kids = {0: [1, 2], 1: [3], 2: [], 3: []}[ci]
+    desc = {0: [1, 3, 2], 1: [3], 2: [], 3: []}[ci]
+    v = {'p': p, 'q': q, 'k': k}
+    run = lambda key: L(T3[key].evaluate(XPathContext(doc, item=item, variables=v)))   # noqa: E731
+    if run('sib_array') != [len(kids) > 0, here] or run('sib_map') != [here] or run('sib_is') != ([True] if desc else []):
+        return False
+    if run('sib_if') != [p > k or q > k, 3, 3]:
+        return False
+    if run('sib_seq') != [len(kids) > 1, here, True, here]:
+        return False
+    if run('sib_quant') != [any(tags[j] == 'a' for j in kids), here, True, here]:
+        return False
+    # one context object, three evaluations
+    ctx = XPathContext(doc, item=item, variables=v)
+    before = (ctx.item, ctx.axis, ctx.position, ctx.size)
+    for key, want in (('rep_head', [tags[desc[0]]] if desc else []), ('rep_exists', [ci == 1, here])):
+        for _ in range(3):
+            if L(T3[key].evaluate(ctx)) != want or (ctx.item, ctx.axis, ctx.position, ctx.size) != before:
+                return False
+    return True
